@@ -692,6 +692,15 @@ func (m *Mux) newUnderlay(ctx context.Context) (Underlay, error) {
 	}
 
 	m.mu.Lock()
+	select {
+	case <-m.done:
+		// The mux was closed while the underlay was being dialed. Close() has
+		// already gone through m.underlays, so nobody would ever close this one.
+		m.mu.Unlock()
+		underlay.Close()
+		return nil, fmt.Errorf("mux is closed")
+	default:
+	}
 	m.underlays = append(m.underlays, underlay)
 	m.mu.Unlock()
 	UnderlayActiveOpens.Add(1)
